@@ -408,12 +408,7 @@ Proof.
   rewrite (observe_restriction Q None interp2 G times T (map2 qvsub l1 l2) (qvsub u1 u2) Hg HT
              (Hlast l1 l2 (eq_trans L1 (eq_sym L2)) u1 u2 E1 E2)).
   cbn [apply_obsmap] in *.
-  assert (Hsq : forall v w : qv, squeeze (A1 v) = A1 w -> (2 <= length w)%nat -> v = w).
-  { intros v w Hs Hw. destruct v as [|x [|y v]]; simpl in Hs; inversion Hs; subst; simpl in Hw; try lia; reflexivity. }
-  inversion H1 as [H1']. inversion H2 as [H2'].
-  pose proof (Hsq u1 o1 H1' Hlen) as ->. pose proof (Hsq u2 o2 H2' ltac:(lia)) as ->.
-  assert (Lq : (2 <= length (qvsub o1 o2))%nat) by (rewrite qvsub_length; lia).
-  destruct (qvsub o1 o2) as [|x [|y r]] eqn:Eq; simpl in Lq; try lia. reflexivity.
+  inversion H1 as [H1']. inversion H2 as [H2']. subst. reflexivity.
 Qed.
 
 (* non-vacuity of C18_forward_pipeline_linear_in_data: the 2-node heat problem with the parameter as initial condition *)
